@@ -20,7 +20,8 @@ static pad_color col() { return pad_color{verif_u8("r"), verif_u8("g"), verif_u8
 
 // "focus" run parameter: which group of fields is symbolic in this run (0 = all; the others take fixed ordinary values), so
 // that the sentinel comparisons of one group do not multiply with those of another
-static bool foc(uint64_t g, uint64_t sub = 0) { uint64_t f = verif_param("focus"); return f == 0 || f == g || (sub && f == sub); }   // 11..17: a single numeric field of group 1
+static uint64_t g_focus_override = 0;      // != 0: the snapshot being built takes this focus instead of the run parameter (99 = every field concrete)
+static bool foc(uint64_t g, uint64_t sub = 0) { uint64_t f = g_focus_override ? g_focus_override : verif_param("focus"); return f == 0 || f == g || (sub && f == sub); }   // 11..17: a single numeric field of group 1
 static double D(uint64_t g, const char* n, double dflt, uint64_t sub = 0) { return foc(g, sub) ? verif::f64(n) : dflt; }
 static int32_t I32(uint64_t g, const char* n, int32_t dflt, uint64_t sub = 0) { return foc(g, sub) ? verif::i32(n) : dflt; }
 static uint64_t g_cues = ~0ull, g_loops = ~0ull;       // slot patterns of the next snapshot when they differ from the run parameters "cues" / "loops"
@@ -167,7 +168,10 @@ static void run_c01(djinterop::database& dbi)
     {
         if (update_path)
         {   // update over a previously stored (different) snapshot
+            // (sparse runs: the stored snapshot is fully populated with concrete values - what matters is that update() replaces all of it)
+            if (verif_param("sparse")) g_focus_override = 99;
             g_opt = 23; track_snapshot s0 = sym_snapshot();
+            g_focus_override = 0;
             t = dbi.create_track(s0);
             t->update(s);
         }
